@@ -19,7 +19,7 @@
 
 use super::*;
 
-const MAXR: usize = 6; // array capacity of the view; quick harnesses bound the table at 4, thorough at 6
+const MAXR: usize = 10; // array capacity of the view; quick harnesses bound the table at 4, thorough at 10
 
 #[derive(Clone, Copy)]
 struct View {
@@ -190,17 +190,17 @@ fn c03_register_count_bounds_every_operand() {
 }
 
 
-/// Thorough tier: `alloc` / `dealloc` on tables of up to 6 entries.
-// BOUND: register table of at most 6 entries before the call
+/// Thorough tier: `alloc` / `dealloc` on tables of up to 10 entries.
+// BOUND: register table of at most 10 entries before the call
 // FN: RegisterAllocator::alloc, RegisterAllocator::dealloc
 #[kani::proof]
-#[kani::unwind(9)]
-fn c03x_register_alloc_dealloc_6() {
-    let mut a = any_allocator_upto(6);
+#[kani::unwind(13)]
+fn c03x_register_alloc_dealloc_10() {
+    let mut a = any_allocator_upto(10);
     let before = view(&a);
     let want = least_free(&before);
-    kani::cover!(want == 5 && before.len == 6);
-    kani::cover!(want == before.len && before.len == 6);
+    kani::cover!(want == 9 && before.len == 10);
+    kani::cover!(want == before.len && before.len == 10);
     let r = a.alloc();
     let mid = view(&a);
     assert!(r.index() as usize == want);
